@@ -52,11 +52,21 @@ theorem resolve_resolvable (q : Quirks) (env : Env) (c : Cls) (ser : Bool)
     cases ser' <;> simp_all
   · cases hattr
 
+/-- a registered pair that is `resolvable` does not keep its payload under the tag key -/
+theorem payloadKey_ne (env : Env) (c : Cls) (h : resolvable env c false = true) : env.payloadKey c ≠ tagKey := by
+  unfold resolvable at h
+  simp only [Bool.and_eq_true] at h
+  obtain ⟨_, hattr⟩ := h
+  split at hattr
+  · simp only [Bool.and_eq_true, Bool.false_eq_true, if_false, bne_iff_ne, ne_eq] at hattr
+    exact hattr.2.2
+  · cases hattr
+
 /-! ### The round trip -/
 
 mutual
 theorem roundtrip_val (q : Quirks) (env : Env) :
-    ∀ v : PyVal, wf env v = true → fromJson q env (toJson v) = .ok v
+    ∀ v : PyVal, wf env v = true → fromJson q env (toJson env v) = .ok v
   | .none, _ => rfl
   | .bool _, _ => rfl
   | .int _, _ => rfl
@@ -64,11 +74,13 @@ theorem roundtrip_val (q : Quirks) (env : Env) :
   | .str _, _ => rfl
   | .ext c p, h => by
     have hr : resolvable env c false = true := by simpa [wf] using h
-    have hv : lookup "value" [(tagKey, Json.str c.fullName), ("value", Json.str p)] = some (.str p) := by
-      simp [lookup, tagKey]
+    have hk : env.payloadKey c ≠ tagKey := payloadKey_ne env c hr
+    have hv : lookup (env.payloadKey c) [(tagKey, Json.str c.fullName), (env.payloadKey c, Json.str p)]
+        = some (.str p) := by
+      simp [lookup, Ne.symm hk]
     simp only [toJson, fromJson]
-    rw [show lookup tagKey [(tagKey, Json.str c.fullName), ("value", Json.str p)] = some (.str c.fullName) by
-      simp [lookup]]
+    rw [show lookup tagKey [(tagKey, Json.str c.fullName), (env.payloadKey c, Json.str p)]
+        = some (.str c.fullName) by simp [lookup]]
     rw [resolve_resolvable q env c false hr]
     simp [hv]
   | .list xs, h => by
@@ -77,18 +89,18 @@ theorem roundtrip_val (q : Quirks) (env : Env) :
   | .obj c fs, h => by
     have h' : resolvable env c true = true ∧ wfFields env fs = true := by simpa [wf] using h
     simp only [toJson, fromJson]
-    rw [show lookup tagKey ((tagKey, Json.str c.fullName) :: toJsonFields fs) = some (.str c.fullName) by
+    rw [show lookup tagKey ((tagKey, Json.str c.fullName) :: toJsonFields env fs) = some (.str c.fullName) by
       simp [lookup]]
     rw [resolve_resolvable q env c true h'.1]
     simp [fromJsonFields, roundtrip_fields q env fs h'.2]
 theorem roundtrip_list (q : Quirks) (env : Env) :
-    ∀ xs : List PyVal, wfList env xs = true → fromJsonList q env (toJsonList xs) = .ok xs
+    ∀ xs : List PyVal, wfList env xs = true → fromJsonList q env (toJsonList env xs) = .ok xs
   | [], _ => rfl
   | x :: xs, h => by
     have h' : wf env x = true ∧ wfList env xs = true := by simpa [wfList] using h
     simp [toJsonList, fromJsonList, roundtrip_val q env x h'.1, roundtrip_list q env xs h'.2]
 theorem roundtrip_fields (q : Quirks) (env : Env) :
-    ∀ fs : List (String × PyVal), wfFields env fs = true → fromJsonFields q env (toJsonFields fs) = .ok fs
+    ∀ fs : List (String × PyVal), wfFields env fs = true → fromJsonFields q env (toJsonFields env fs) = .ok fs
   | [], _ => rfl
   | (k, v) :: r, h => by
     have h' : (k ≠ tagKey ∧ wf env v = true) ∧ wfFields env r = true := by simpa [wfFields] using h
@@ -100,13 +112,13 @@ value — leaves, registered third-party instances, `SubclassJSONSerializer` ins
 to any depth — deserialising the serialised value gives back exactly the value: same structure, same leaves, and
 every object an instance of exactly its original class (`Cls` equality includes the class identity). -/
 theorem C18_roundtrip (q : Quirks) (env : Env) (v : PyVal) (h : wf env v = true) :
-    fromJson q env (toJson v) = .ok v :=
+    fromJson q env (toJson env v) = .ok v :=
   roundtrip_val q env v h
 
 /-! ### Every serialised object carries its fully qualified type tag -/
 
 mutual
-theorem tags_val : ∀ v : PyVal, wf env v = true → jsonTags (toJson v) = valueTags v
+theorem tags_val : ∀ v : PyVal, wf env v = true → jsonTags (toJson env v) = valueTags v
   | .none, _ => rfl
   | .bool _, _ => rfl
   | .int _, _ => rfl
@@ -119,13 +131,13 @@ theorem tags_val : ∀ v : PyVal, wf env v = true → jsonTags (toJson v) = valu
   | .obj c fs, h => by
     have h' : resolvable env c true = true ∧ wfFields env fs = true := by simpa [wf] using h
     simp [toJson, jsonTags, valueTags, lookup, jsonTagsFields, tags_fields fs h'.2]
-theorem tags_list : ∀ xs : List PyVal, wfList env xs = true → jsonTagsList (toJsonList xs) = valueTagsList xs
+theorem tags_list : ∀ xs : List PyVal, wfList env xs = true → jsonTagsList (toJsonList env xs) = valueTagsList xs
   | [], _ => rfl
   | x :: xs, h => by
     have h' : wf env x = true ∧ wfList env xs = true := by simpa [wfList] using h
     simp [toJsonList, jsonTagsList, valueTagsList, tags_val x h'.1, tags_list xs h'.2]
 theorem tags_fields : ∀ fs : List (String × PyVal), wfFields env fs = true →
-    jsonTagsFields (toJsonFields fs) = valueTagsFields fs
+    jsonTagsFields (toJsonFields env fs) = valueTagsFields fs
   | [], _ => rfl
   | (k, v) :: r, h => by
     have h' : (k ≠ tagKey ∧ wf env v = true) ∧ wfFields env r = true := by simpa [wfFields] using h
@@ -136,9 +148,9 @@ end
 `__json_type__` the string `module + "." + name` of the class of the object it stands for, in document order;
 no object lacks the key (`valueTags` never contains `none`), and at the top level the tag is the first entry. -/
 theorem C18_tag (env : Env) (v : PyVal) (h : wf env v = true) :
-    jsonTags (toJson v) = valueTags v ∧
-    (∀ c fs, v = .obj c fs → ∃ rest, toJson v = .obj ((tagKey, .str (c.module ++ "." ++ c.name)) :: rest)) ∧
-    (∀ c p, v = .ext c p → ∃ rest, toJson v = .obj ((tagKey, .str (c.module ++ "." ++ c.name)) :: rest)) := by
+    jsonTags (toJson env v) = valueTags v ∧
+    (∀ c fs, v = .obj c fs → ∃ rest, toJson env v = .obj ((tagKey, .str (c.module ++ "." ++ c.name)) :: rest)) ∧
+    (∀ c p, v = .ext c p → ∃ rest, toJson env v = .obj ((tagKey, .str (c.module ++ "." ++ c.name)) :: rest)) := by
   refine ⟨tags_val v h, ?_, ?_⟩
   · intro c fs e; subst e; exact ⟨_, rfl⟩
   · intro c p e; subst e; exact ⟨_, rfl⟩
@@ -159,7 +171,7 @@ def exEnv : Env where
 def exVal : PyVal :=
   .obj exB [("x", .list [.obj exA [], .list [], .ext exU "p", .int 5]), ("y", .none)]
 
-example : wf exEnv exVal = true ∧ fromJson .all exEnv (toJson exVal) = .ok exVal := by
+example : wf exEnv exVal = true ∧ fromJson .all exEnv (toJson exEnv exVal) = .ok exVal := by
   refine ⟨by decide, C18_roundtrip _ _ _ (by decide)⟩
 example : valueTags exVal = [some (.str "m.sub.B"), some (.str "m.sub.A"), some (.str "uuid.UUID")] := by
   simp [valueTags, valueTagsFields, valueTagsList, exVal, exA, exB, exU, Cls.fullName]
@@ -167,5 +179,108 @@ example : wf exEnv (.obj ⟨"k9", "m.sub", "Local"⟩ []) = false := by decide
 example : wf exEnv (.obj exA [(tagKey, .none)]) = false := by decide
 /-- a serializer class that does not implement `_from_json` (abstract) is not well-formed -/
 example : wf { exEnv with getattr := fun _ _ => .cls exA true false false } (.obj exA []) = false := by decide
+
+
+/-! ### Shared sub-values: aliasing is irrelevant
+
+A value in which one list object / one serialisable object is referenced from several places (`SVal`, a DAG) stands
+for the tree `SVal.tree`; `toJson` is a function of that tree, so the round trip of a shared value is the round trip
+of its tree. The statement is trivial in the model *because* the model serialises structure only — the correspondence
+exercises aliased Python values (same `id()`) against it. -/
+
+/-- **C18_roundtrip_shared.** -/
+theorem C18_roundtrip_shared (q : Quirks) (env : Env) (s : SVal) (v : PyVal) (hs : s.tree = some v)
+    (h : wf env v = true) : (s.tree.map fun t => fromJson q env (toJson env t)) = some (.ok v) := by
+  rw [hs]; simp [C18_roundtrip q env v h]
+
+/-- test: `e = []; [e, e]` and `row = [0]; [[row, row], row]` expand to the trees they stand for; a reference before
+its definition (a cycle) has no tree -/
+example : (SVal.list [.defn 0 (.list []), .ref 0]).tree = some (.list [.list [], .list []]) ∧
+    (SVal.list [.list [.defn 1 (.list [.leaf (.int 0)]), .ref 1], .ref 1]).tree
+      = some (.list [.list [.list [.int 0], .list [.int 0]], .list [.int 0]]) ∧
+    (SVal.defn 0 (.list [.ref 0])).tree = none := by
+  refine ⟨?_, ?_, ?_⟩ <;> simp [SVal.tree, expand, expandList, lookupDef]
+
+/-! ### Registry histories: the round trip uses the registry as it is at the time of the call -/
+
+mutual
+theorem serializable_of_wf (env : Env) : ∀ v : PyVal, wf env v = true → serializable env v = true
+  | .none, _ => rfl
+  | .bool _, _ => rfl
+  | .int _, _ => rfl
+  | .float _, _ => rfl
+  | .str _, _ => rfl
+  | .ext c p, h => by
+    have hr : resolvable env c false = true := by simpa [wf] using h
+    unfold resolvable at hr
+    simp only [Bool.and_eq_true] at hr
+    obtain ⟨_, hattr⟩ := hr
+    simp only [serializable]
+    split at hattr
+    · rename_i c' ser' reg' impl' hk
+      simp only [Bool.and_eq_true, Bool.false_eq_true, if_false, beq_iff_eq] at hattr
+      simp [hattr.1.1, hattr.2.1]
+    · cases hattr
+  | .list xs, h => by
+    have hl : wfList env xs = true := by simpa [wf] using h
+    simp [serializable, serializableList_of_wf env xs hl]
+  | .obj c fs, h => by
+    have h' : resolvable env c true = true ∧ wfFields env fs = true := by simpa [wf] using h
+    simp [serializable, serializableFields_of_wf env fs h'.2]
+theorem serializableList_of_wf (env : Env) : ∀ xs : List PyVal, wfList env xs = true → serializableList env xs = true
+  | [], _ => rfl
+  | x :: xs, h => by
+    have h' : wf env x = true ∧ wfList env xs = true := by simpa [wfList] using h
+    simp [serializableList, serializable_of_wf env x h'.1, serializableList_of_wf env xs h'.2]
+theorem serializableFields_of_wf (env : Env) :
+    ∀ fs : List (String × PyVal), wfFields env fs = true → serializableFields env fs = true
+  | [], _ => rfl
+  | (k, v) :: r, h => by
+    have h' : (k ≠ tagKey ∧ wf env v = true) ∧ wfFields env r = true := by simpa [wfFields] using h
+    simp [serializableFields, serializable_of_wf env v h'.1.2, serializableFields_of_wf env r h'.2]
+end
+
+theorem runOps_append (q : Quirks) (base : Env) (ops₂ : List HOp) :
+    ∀ (ops₁ : List HOp) (R : RegState),
+      runOps q base (ops₁ ++ ops₂) R =
+        ((runOps q base ops₁ R).1 ++ (runOps q base ops₂ (runOps q base ops₁ R).2).1,
+         (runOps q base ops₂ (runOps q base ops₁ R).2).2)
+  | [], R => by simp [runOps]
+  | op :: ops, R => by
+    simp only [List.cons_append, runOps]
+    rw [runOps_append q base ops₂ ops]
+
+/-- **C18_history.** After ANY history of operations (registrations, re-registrations, failed or successful
+serialisations, deserialisations of stored documents) starting in any registry state, a round trip of a value that
+is well-formed in the registry state *reached* gives back the value — whatever the earlier states were, in particular
+if the same value could not be serialised earlier (type not yet registered) or was serialised under another
+registration of the type. -/
+theorem C18_history (q : Quirks) (base : Env) (ops : List HOp) (R₀ : RegState) (v : PyVal)
+    (h : wf (envWith base (runOps q base ops R₀).2) v = true) :
+    runOps q base (ops ++ [.rt v]) R₀ =
+      ((runOps q base ops R₀).1 ++ [.result (.ok v)], (runOps q base ops R₀).2) := by
+  rw [runOps_append]
+  simp only [runOps, stepOp, serializable_of_wf _ v h, if_true, C18_roundtrip q _ v h]
+
+/-- **C18_registered_wf.** Registering a (de)serializer pair for a module-level plain class makes its instances
+well-formed immediately, for every earlier state `R` (also one that holds an older registration of the same class
+under another key: the newest pair is the one that counts). -/
+theorem C18_registered_wf (base : Env) (R : RegState) (c : Cls) (key p : String) (reg impl : Bool)
+    (hdot : c.name.toList.contains '.' = false) (himp : base.importModule c.module = .ok)
+    (hattr : base.getattr c.module c.name = .cls c false reg impl) (hkey : key ≠ tagKey) :
+    wf (envWith base (⟨c, key⟩ :: R)) (.ext c p) = true := by
+  have hn : '.' ∉ c.name.toList := by simpa using hdot
+  simp [wf, resolvable, envWith, hn, himp, hattr, RegState.byCls, hkey]
+
+/-- tests: register on demand, and a replaced registration (the two scenarios of a stale registry cache) -/
+def hCls : Cls := ⟨"h0", "m.sub", "H"⟩
+def hEnv : Env := { exEnv with getattr := fun m n => if m = "m.sub" ∧ n = "H" then .cls hCls false false true else exEnv.getattr m n }
+example : (runOps .none hEnv [.rt (.ext hCls "p"), .register hCls "text", .rt (.list [.ext hCls "p"])] []).1.length = 3 ∧
+    wf (envWith hEnv (runOps .none hEnv [.rt (.ext hCls "p"), .register hCls "text"] []).2) (.list [.ext hCls "p"]) = true ∧
+    wf (envWith hEnv []) (.ext hCls "p") = false := by
+  refine ⟨by simp [runOps, stepOp], by decide, by decide⟩
+example : toJson (envWith hEnv [⟨hCls, "tuple"⟩, ⟨hCls, "text"⟩]) (.ext hCls "p")
+    = .obj [(tagKey, .str "m.sub.H"), ("tuple", .str "p")] := by
+  simp [toJson, envWith, RegState.byCls, hCls, Cls.fullName]
 
 end KrroodVerif.Json
